@@ -6,6 +6,7 @@ import (
 	"crypto/sha256"
 	"encoding/hex"
 	"encoding/json"
+	"errors"
 	"fmt"
 	"io"
 	"os"
@@ -230,14 +231,24 @@ type SimReader struct {
 	sawEOF    bool
 	MaxCalls  int
 	Overcall  bool
+	// failAt >= 0: once failAt bytes have been delivered every Read reports errSimDisk (a persistent I/O error, as a
+	// failing disk or a broken connection gives); errWithData: the first report comes together with the last bytes
+	failAt      int
+	errWithData bool
+	errCalls    int // Read calls made after the error was first reported
 }
+
+var errSimDisk = errors.New("SIMDISK: simulated read error")
+
+// errPolled aborts a Load that keeps calling Read after the reader has reported its error many times
+var errPolled = errors.New("SIMDISK: reader polled again and again after it had reported an error")
 
 func describePattern(r *SimReader) string {
 	return fmt.Sprintf("pattern=%d sizes=%v zeroEvery=%d sepEOF=%v", r.pattern, r.sizes, r.zeroEvery, r.sepEOF)
 }
 
 func newSimReader(data string, t *core.Tape) *SimReader {
-	r := &SimReader{data: data}
+	r := &SimReader{data: data, failAt: -1}
 	r.pattern = t.Choose(6)
 	switch r.pattern {
 	case 0: // everything at once
@@ -280,6 +291,13 @@ func (r *SimReader) Read(p []byte) (int, error) {
 	if len(p) == 0 {
 		return 0, nil
 	}
+	if r.failAt >= 0 && r.pos >= r.failAt {
+		r.errCalls++
+		if r.errCalls > 64 {
+			panic(errPolled)
+		}
+		return 0, errSimDisk
+	}
 	if r.zeroEvery > 0 && r.calls%r.zeroEvery == 0 && r.zeroRun < 3 {
 		r.zeroRun++
 		r.zeroReads++
@@ -314,6 +332,16 @@ func (r *SimReader) Read(p []byte) (int, error) {
 	}
 	if n > len(p) {
 		n = len(p)
+	}
+	if r.failAt >= 0 && r.pos+n >= r.failAt {
+		n = r.failAt - r.pos
+		copy(p, r.data[r.pos:r.pos+n])
+		r.pos += n
+		if r.errWithData || n == 0 {
+			r.errCalls++
+			return n, errSimDisk
+		}
+		return n, nil
 	}
 	if n < rem && n < len(p) {
 		r.shortRead++
@@ -820,6 +848,35 @@ func (e *Engine) Run(t *core.Tape, cfg *core.Config, st *core.Stats) *core.Viola
 		if v.class != base.class || v.hLines != base.hLines {
 			return core.Violationf("chunking-dependence", "source %s mutation %s: plain reader gives %s (%s), delivery %s gives %s (%s)\ninput: %s",
 				srcName, mutDesc, base.class, base.detail, describePattern(rd), v.class, v.detail, quoteShort(src))
+		}
+	}
+	// 5. a reader that fails: after some of the bytes every Read reports an I/O error. Load must end, with an error.
+	for d, nf := 0, 1+t.Choose(3); d < nf; d++ {
+		rd := newSimReader(src, t)
+		rd.failAt = t.Choose(len(src) + 1)
+		if t.Choose(3) == 0 {
+			// right behind a place where the scanner is inside a comment, a string or a long bracket
+			for _, open := range []string{"--", "[[", "\"", "'", "[=["} {
+				if i := strings.Index(src[rd.failAt:], open); i >= 0 {
+					rd.failAt += i + len(open)
+					break
+				}
+			}
+		}
+		rd.errWithData = t.Bool()
+		v := loadOnce(L, rd, "", 0)
+		st.Evals++
+		st.Fault("read_error")
+		st.Event("load %s mut=%s read error after %d of %d bytes -> %s", srcName, mutDesc, rd.failAt, len(src), v.class)
+		what := fmt.Sprintf("source %s mutation %s: the reader reports an I/O error after %d of %d bytes (%s)", srcName, mutDesc, rd.failAt, len(src), describePattern(rd))
+		if rd.errCalls > 64 || rd.Overcall {
+			return core.Violationf("hang", "%s: Load kept calling Read, %d calls after the error was first reported\ninput: %s", what, rd.errCalls, quoteShort(src))
+		}
+		if !v.ok {
+			return core.Violationf(v.class, "%s: %s\ninput: %s", what, v.detail, quoteShort(src))
+		}
+		if v.class == "function" {
+			return core.Violationf("read-error-ignored", "%s: Load returned a function and no error\ninput: %s", what, quoteShort(src))
 		}
 	}
 	if st.WantSample() {
